@@ -15,15 +15,19 @@ KINDS = ["8", "9", "F", "G", "X"]
 ET = ["0", "3", "4", "5", "6", "7", "8", "9", "A", "B", "C", "D", "E", "F", "G", "H", "I", "-"]
 
 
-def points():
+def points(order=(True, False), prefix="p"):
+    """Every cell in both error modes.  `order` is the order in which the two modes of one cell are asked: the function is
+    a function - what it answers must not depend on what it was asked before (a result remembered from the quiet call
+    must not leak into the raising call of the same cell, nor the other way round)."""
     out = []
     i = 0
     for st in ST:
         for k in KINDS:
             for et in ET:
                 for ms in ST:
-                    for r in (True, False):
-                        out.append({"id": "p%d" % i, "t": "point", "st": st, "kind": k, "et": et, "ms": ms, "raise": r})
+                    for r in order:
+                        out.append({"id": "%s%d" % (prefix, i), "t": "point", "st": st, "kind": k, "et": et, "ms": ms, "raise": r,
+                                    "fresh": prefix != "p"})
                         i += 1
     return out
 
@@ -34,6 +38,11 @@ def execute(chunk):
         sys.path.insert(0, __import__("harness").REPO)
     from asyncfix import FMsg
     from asyncfix.errors import FIXError
+    if chunk and chunk[0].get("fresh"):
+        # the quiet-first pass starts from a freshly executed module: nothing the raising-first pass asked is remembered
+        import importlib
+        import asyncfix.protocol.order_single as _m
+        importlib.reload(_m)
     from asyncfix.protocol.order_single import FIXNewOrderSingle
     from asyncfix.protocol.common import FOrdStatus, FExecType
     KM = {"8": FMsg.EXECUTIONREPORT, "9": FMsg.ORDERCANCELREJECT, "F": FMsg.ORDERCANCELREQUEST, "G": FMsg.ORDERCANCELREPLACEREQUEST,
@@ -75,7 +84,8 @@ def run(ctx):
     out.states = 40500
     out.transitions = 40500
     ctx.log("laws L1-L5 hold on the transcribed table over the whole domain (40500 points) except the test-pinned cells")
-    pts = points() + [{"id": "d%s" % s, "t": "derived", "st": s} for s in ST]
+    p1, p2 = points(), points(order=(False, True), prefix="q")
+    pts = p1 + p2 + [{"id": "d%s" % s, "t": "derived", "st": s} for s in ST]
     chunks = [pts[i:i + 2500] for i in range(0, len(pts), 2500)]
     recs = [r for c in pmap(execute, chunks, force=True) for r in c]
     verd = tlc.evaluate(ctx.sub("eval"), "OrderStatusEval", recs, shard_size=3000, jobs=16)
@@ -92,13 +102,20 @@ def run(ctx):
     out.samples = recs[:2] + recs[-1:]
     out.exhaustive = True
     out.extra["domain_points"] = len(pts)
-    out.assumptions = ["unsupported kinds are represented by NewOrderSingle ('D')", "enum members and their string values are used alternately as arguments"]
+    out.assumptions = ["unsupported kinds are represented by NewOrderSingle ('D')", "enum members and their string values are used alternately as arguments",
+                       "every cell is asked in both error modes in both orders (raising first; quiet first in a freshly loaded module)"]
     return out
 
 
 def replay(ctx, inp):
     out = Outcome()
-    rec = execute([inp])[0]
+    if inp.get("t") == "point":
+        # re-create the history of the cell: both error modes in the order of the pass the point came from
+        order = (False, True) if inp.get("fresh") else (True, False)
+        pair = [dict(inp, **{"raise": r}) for r in order]
+        rec = next(r for r in execute(pair) if r["raise"] == inp["raise"])
+    else:
+        rec = execute([inp])[0]
     verd = tlc.evaluate(ctx.sub("eval"), "OrderStatusEval", [rec])
     out.traces = 1
     for c in verd[0]["fails"]:
